@@ -225,36 +225,56 @@ pub open spec fn insert_rel<K: PartialEq, V, const N: usize>(pre: Map<K, V, N>, 
     exists|p: (usize, Option<(K, V)>)| #[trigger] insert_post(pre, post, k, v, update_key, p) && p.1 == d
 }
 
-/// `remove_post` seen through `Map::remove` (only the value comes back)
-pub open spec fn remove_val_rel<K: Borrow<Q>, Q: PartialEq + ?Sized, V, const N: usize>(pre: Map<K, V, N>, post: Map<K, V, N>, q: &Q, r: Option<V>) -> bool {
-    exists|kv: Option<(K, V)>| #[trigger] remove_post(pre, post, q, kv) && r == (match kv { Some(p) => Some(p.1), None => None })
+/// swap-remove of slot `j`, which is the first slot answering the lookup `q`
+pub open spec fn remove_at<K: Borrow<Q>, Q: PartialEq + ?Sized, V, const N: usize>(pre: Map<K, V, N>, post: Map<K, V, N>, q: &Q, j: int) -> bool {
+    &&& pre.first_match(q, j)
+    &&& post.slen() == pre.slen() - 1
+    &&& j != post.slen() ==> post.slot(j) == pre.slot(pre.slen() - 1)
+    &&& forall|i: int| 0 <= i < post.slen() && i != j ==> post.slot(i) == pre.slot(i)
 }
 
-/// `remove_post` seen through `Set::take` (only the key comes back)
-pub open spec fn remove_key_rel<K: Borrow<Q>, Q: PartialEq + ?Sized, V, const N: usize>(pre: Map<K, V, N>, post: Map<K, V, N>, q: &Q, r: Option<K>) -> bool {
-    exists|kv: Option<(K, V)>| #[trigger] remove_post(pre, post, q, kv) && r == (match kv { Some(p) => Some(p.0), None => None })
+/// what holds whatever the lookup found
+pub open spec fn remove_frame<K, V, const N: usize>(pre: Map<K, V, N>, post: Map<K, V, N>) -> bool {
+    &&& post.wf_weak()
+    &&& forall|rel: spec_fn(K, K) -> bool| #[trigger] pre.distinct_by(rel) ==> post.distinct_by(rel)
 }
 
-/// `remove_post` seen through a boolean "something was removed"
-pub open spec fn removed_rel<K: Borrow<Q>, Q: PartialEq + ?Sized, V, const N: usize>(pre: Map<K, V, N>, post: Map<K, V, N>, q: &Q, removed: bool) -> bool {
-    exists|kv: Option<(K, V)>| #[trigger] remove_post(pre, post, q, kv) && removed == kv.is_some()
-}
-
-/// The contract of the swap-remove lookups (`remove_entry`, `remove`): what a call that
+/// The contract of the swap-remove lookups (`remove_entry`): what a call that
 /// returns `Some(kv)` / `None` has done to the table.
 pub open spec fn remove_post<K: Borrow<Q>, Q: PartialEq + ?Sized, V, const N: usize>(pre: Map<K, V, N>, post: Map<K, V, N>, q: &Q, r: Option<(K, V)>) -> bool {
-    &&& post.wf_weak()
+    &&& remove_frame(pre, post)
     &&& lawful::<K, Q>() ==> match r {
-        Some(kv) => exists|j: int| {
-            &&& (#[trigger] pre.slot(j)) == Some(kv)
-            &&& pre.first_match(q, j)
-            &&& post.slen() == pre.slen() - 1
-            &&& j != post.slen() ==> post.slot(j) == pre.slot(pre.slen() - 1)
-            &&& forall|i: int| 0 <= i < post.slen() && i != j ==> post.slot(i) == pre.slot(i)
-        },
+        Some(kv) => exists|j: int| (#[trigger] pre.slot(j)) == Some(kv) && remove_at(pre, post, q, j),
         None => pre.no_match(q) && post == pre,
     }
-    &&& forall|rel: spec_fn(K, K) -> bool| #[trigger] pre.distinct_by(rel) ==> post.distinct_by(rel)
+}
+
+/// the same seen through `Map::remove` (only the value comes back)
+pub open spec fn remove_val_rel<K: Borrow<Q>, Q: PartialEq + ?Sized, V, const N: usize>(pre: Map<K, V, N>, post: Map<K, V, N>, q: &Q, r: Option<V>) -> bool {
+    &&& remove_frame(pre, post)
+    &&& lawful::<K, Q>() ==> match r {
+        Some(v) => exists|j: int| (#[trigger] pre.slot(j)).is_some() && pre.slot(j).unwrap().1 == v && remove_at(pre, post, q, j),
+        None => pre.no_match(q) && post == pre,
+    }
+}
+
+/// ... through `Set::take` (only the key comes back)
+pub open spec fn remove_key_rel<K: Borrow<Q>, Q: PartialEq + ?Sized, V, const N: usize>(pre: Map<K, V, N>, post: Map<K, V, N>, q: &Q, r: Option<K>) -> bool {
+    &&& remove_frame(pre, post)
+    &&& lawful::<K, Q>() ==> match r {
+        Some(k) => exists|j: int| (#[trigger] pre.slot(j)).is_some() && pre.slot(j).unwrap().0 == k && remove_at(pre, post, q, j),
+        None => pre.no_match(q) && post == pre,
+    }
+}
+
+/// ... through a boolean "something was removed"
+pub open spec fn removed_rel<K: Borrow<Q>, Q: PartialEq + ?Sized, V, const N: usize>(pre: Map<K, V, N>, post: Map<K, V, N>, q: &Q, removed: bool) -> bool {
+    &&& remove_frame(pre, post)
+    &&& lawful::<K, Q>() ==> if removed {
+        exists|j: int| (#[trigger] pre.slot(j)).is_some() && remove_at(pre, post, q, j)
+    } else {
+        pre.no_match(q) && post == pre
+    }
 }
 
 /// ASSUMED: `core::mem::drop(x)` destroys `x` and has no other effect on the caller's
@@ -336,6 +356,16 @@ impl<'a, K, V, const N: usize> OccupiedEntry<'a, K, V, N> {
 impl<K, V, const N: usize> VacantEntry<'_, K, V, N> {
     pub open spec fn vkey(&self) -> K {
         self.key
+    }
+
+    /// the table as the entry sees it now / when the borrow ends
+    pub open spec fn vtbl(&self) -> Map<K, V, N> {
+        *self.table
+    }
+
+    #[verifier::prophetic]
+    pub open spec fn vtbl_after(&self) -> Map<K, V, N> {
+        *final(self.table)
     }
 }
 
